@@ -86,6 +86,9 @@ func buildEvidence(prop, tier string, seed int, pc propConfig, outs []entryOut, 
 		sl = append(sl, s)
 	}
 	sort.Strings(sl)
+	if pc.Assumptions == nil {
+		pc.Assumptions = []string{}
+	}
 	if len(samples) == 0 {
 		samples = append(samples, map[string]any{"note": "no completed path"})
 	}
